@@ -539,6 +539,17 @@ def _emitter_tables(F):
 # span (HIR of Instruction::span) and disassembler
 # ---------------------------------------------------------------------------------------------------
 
+def const_hook(F, depth=0):
+    """eval_int hook: a path to a named integer constant evaluates to the value of its body"""
+    def hook(x):
+        if x.get("k") == "path" and x["path"]["res"].get("k") == "def" and "Const" in (x["path"]["res"].get("def_kind") or "") and depth < 4:
+            c = F.fn(short(x["path"]["res"].get("path", "")), required=False)
+            if c is not None and c.hir:
+                return hu.eval_int(F, c.hir["body"], {}, const_hook(F, depth + 1))
+        return None
+    return hook
+
+
 def span_table(F):
     f = F.fn("instruction::Instruction::span")
     variants = F.enum_variants(INSTR)
@@ -589,7 +600,7 @@ def span_table(F):
                 c = instr_ctor(x["recv"])
                 if isinstance(c, str):
                     return full(c, depth + 1)
-            return None
+            return const_hook(F)(x)
         return hu.eval_int(F, e, env, hook)
 
     return {v: full(v) for v in variants}, f
@@ -603,7 +614,7 @@ def cursor_advance(F, e, depth=0):
     for y in hir_walk(e):
         k = y.get("k")
         if k == "assign_op" and y["op"] == "AddAssign":
-            val = hu.eval_int(F, y["r"], {}, None)
+            val = hu.eval_int(F, y["r"], {}, const_hook(F))
             if val is None:
                 return None
             total += val
